@@ -848,6 +848,246 @@ pub fn run(suite: &str, thorough: bool, seed: u64, shard: usize, nshards: usize,
                 em.case(s, parse_case(&vec![("f".to_owned(), text)], vec![("verdict", Json::s("bad")), ("how", Json::s(how))]));
             }
         }
+        // C01: sets of 1-6 files through the parse-level op
+        "projparse" => {
+            let n = share(if thorough { 4000 } else { 100 });
+            for _ in 0..n {
+                let s = rng.next();
+                let mut r = Rng::new(s);
+                let cfg = gen::DocCfg::default();
+                let proj = gen::gen_project(&mut r, &cfg);
+                let style = if r.chance(1, 2) { LayoutStyle::Wild } else { LayoutStyle::Plain };
+                let mut files = render_project(&proj, style, &mut r);
+                if r.chance(1, 3) && !files.is_empty() {
+                    // one of the files is broken
+                    let k = r.below(files.len());
+                    let cut = files[k].1.len() / 2;
+                    let mut c = cut;
+                    while !files[k].1.is_char_boundary(c) {
+                        c += 1;
+                    }
+                    files[k].1.truncate(c);
+                }
+                em.case(s, parse_case(&files, vec![]));
+            }
+        }
+        // C01: long inputs and deep generic nesting
+        "big" => {
+            let n = share(if thorough { 64 } else { 12 });
+            for i in 0..n {
+                let sd = rng.next();
+                let mut r = Rng::new(sd);
+                let text = if i % 2 == 0 {
+                    // nesting up to depth 64
+                    let depth = r.range(8, 64);
+                    let mut t = String::from("String");
+                    for k in 0..depth {
+                        t = match (k + i) % 3 {
+                            0 => format!("List<{}>", t),
+                            1 => format!("Map<String, {}>", t),
+                            _ => format!("{}[]", t),
+                        };
+                    }
+                    format!("package a;\ninterface I {{\n    {} f(in {} x);\n}}\n", t, t)
+                } else {
+                    // a long interface (to 64 KiB in thorough)
+                    let target = if thorough { 65536 } else { 6000 };
+                    let cfg = gen::DocCfg { max_members: 6, ..Default::default() };
+                    let pool = gen::TypePool::default_pool();
+                    let mut d = gen::gen_document(&mut r, &cfg);
+                    d.item.kind = doc::ItemKind::Interface;
+                    d.item.members.clear();
+                    let mut text = String::new();
+                    while text.len() < target {
+                        for _ in 0..20 {
+                            d.item.members.push(doc::MemberDoc::Method(gen::gen_method(&mut r, &cfg, &pool)));
+                        }
+                        text = doc::layout(&doc::render(&d).toks, LayoutStyle::Plain, &mut r).text;
+                    }
+                    if r.chance(1, 2) {
+                        // damage it somewhere
+                        let cut = r.below(text.len());
+                        let mut k = cut;
+                        while !text.is_char_boundary(k) {
+                            k += 1;
+                        }
+                        text.insert_str(k, " ) é ");
+                    }
+                    text
+                };
+                em.case(sd, parse_case(&vec![("f".to_owned(), text)], vec![]));
+            }
+        }
+        // C14: one malformed member inside an otherwise well-formed item
+        "garbage" => {
+            let n = share(if thorough { 30000 } else { 500 });
+            let vocab: Vec<&str> = vec![
+                "package", "import", "interface", "parcelable", "enum", "oneway", "const", "in", "out", "inout", "void",
+                "int", "String", "List", "Map", "true", "class", "static", "double", "(", ")", "[", "]", "<", ">", "=", ".",
+                "-", "@Ann", "foo", "Bar", "x1", "12", "1.5", "\"s\"", "CharSequence", "boolean", "do", "new",
+            ];
+            let mut made = 0usize;
+            let mut attempts = 0usize;
+            while made < n && attempts < n * 20 {
+                attempts += 1;
+                let sd = rng.next();
+                let mut r = Rng::new(sd);
+                let cfg = gen::DocCfg { max_members: 4, docs: false, ..Default::default() };
+                let mut d = gen::gen_document(&mut r, &cfg);
+                let len = r.range(1, 6);
+                let g: Vec<String> = (0..len).map(|_| (*r.pick(&vocab)).to_owned()).collect();
+                // it must not itself be a well-formed member: parse it alone in the same kind of item
+                let mut probe = d.clone();
+                probe.item.members = vec![doc::MemberDoc::Garbage(g.clone())];
+                probe.item.enum_trailing_comma = true;
+                let ptext = doc::layout(&doc::render(&probe).toks, LayoutStyle::Plain, &mut r).text;
+                let mut pp: Parser<String> = Parser::new();
+                pp.add_content("p".to_owned(), &ptext);
+                let pres = &pp.verif_parse_results()["p"];
+                if pres.diagnostics.is_empty() {
+                    continue; // a well-formed member
+                }
+                let pos = r.below(d.item.members.len() + 1);
+                d.item.members.insert(pos, doc::MemberDoc::Garbage(g));
+                d.item.enum_trailing_comma = true;
+                let rd = doc::render(&d);
+                let style = if r.chance(1, 2) { LayoutStyle::Plain } else { LayoutStyle::WildNoComments };
+                let laid = doc::layout(&rd.toks, style, &mut r);
+                let gs = rd.spans.iter().find(|sp| sp.what == "garbage").unwrap();
+                let siblings: Vec<Json> = d.item.members.iter().filter_map(doc::sx_member).map(Json::s).collect();
+                let extra = vec![(
+                    "garbage",
+                    Json::obj(vec![
+                        ("start", Json::n(laid.tok_spans[gs.first].0)),
+                        ("end", Json::n(laid.tok_spans[gs.terminator.unwrap()].1)),
+                        ("position", Json::n(pos)),
+                        ("siblings", Json::Arr(siblings)),
+                    ]),
+                )];
+                em.case(sd, parse_case(&vec![("f".to_owned(), laid.text)], extra));
+                made += 1;
+            }
+        }
+        // C18: documentation comments in the six situations
+        "docs" => {
+            let n = share(if thorough { 12000 } else { 250 });
+            let words = ["hello", "Größe", "日本語", "🎉", "naïve", "wörld", "ok", "x1", "the", "value", "é", "中文字"];
+            for _ in 0..n {
+                let sd = rng.next();
+                let mut r = Rng::new(sd);
+                let crlf = r.chance(1, 3);
+                let eol = if crlf { "\r\n" } else { "\n" };
+                let cfg = gen::DocCfg { max_members: 4, docs: false, ..Default::default() };
+                let mut d = gen::gen_document(&mut r, &cfg);
+                let mut expected: Vec<Json> = Vec::new();
+                let mut situations: Vec<Json> = Vec::new();
+                // build one documentation situation; returns (raw text placed before the construct, expected doc)
+                let mut make = |r: &mut Rng| -> (Option<String>, Option<String>, &'static str) {
+                    let gen_doc = |r: &mut Rng| -> (String, String) {
+                        let np = r.range(1, 3);
+                        let mut raw = String::from("/**");
+                        let mut exp_pars: Vec<String> = Vec::new();
+                        let same_line = r.chance(1, 3);
+                        for p in 0..np {
+                            let nl = r.range(1, 3);
+                            let mut lines: Vec<String> = Vec::new();
+                            for _ in 0..nl {
+                                let nw = r.range(1, 4);
+                                lines.push((0..nw).map(|_| *r.pick(&words)).collect::<Vec<_>>().join(" "));
+                            }
+                            for (li, l) in lines.iter().enumerate() {
+                                if p == 0 && li == 0 && same_line {
+                                    raw.push(' ');
+                                } else {
+                                    raw.push_str(eol);
+                                    raw.push_str(" * ");
+                                }
+                                raw.push_str(l);
+                            }
+                            if p + 1 < np {
+                                raw.push_str(eol);
+                                raw.push_str(" *");
+                            }
+                            exp_pars.push(lines.join(" "));
+                        }
+                        let ntags = r.below(3);
+                        let mut exp = exp_pars.join("\n");
+                        for t in 0..ntags {
+                            let clause = format!("@param p{} {}", t, *r.pick(&words));
+                            raw.push_str(eol);
+                            raw.push_str(" * ");
+                            raw.push_str(&clause);
+                            exp.push('\n');
+                            exp.push_str(&clause);
+                        }
+                        raw.push_str(eol);
+                        raw.push_str(" */");
+                        raw.push_str(eol);
+                        (raw, exp)
+                    };
+                    match r.below(6) {
+                        0 => (None, None, "no comment"),
+                        1 => (Some(format!("/* plain é comment */{}// line 日本{}", eol, eol)), None, "ordinary comments only"),
+                        2 => {
+                            let (raw, exp) = gen_doc(r);
+                            (Some(raw), Some(exp), "doc comment")
+                        }
+                        3 => {
+                            let (raw, exp) = gen_doc(r);
+                            (Some(format!("{}/* note é */{}// line 中{}", raw, eol, eol)), Some(exp), "doc then ordinary comments")
+                        }
+                        4 => {
+                            let (raw1, _) = gen_doc(r);
+                            let (raw2, exp2) = gen_doc(r);
+                            (Some(format!("{}{}", raw1, raw2)), Some(exp2), "two doc comments")
+                        }
+                        _ => (None, None, "doc of the previous member"), // the previous member carries its own doc
+                    }
+                };
+                let (raw, exp, sit) = make(&mut r);
+                d.item.doc = raw;
+                expected.push(exp.map(Json::s).unwrap_or(Json::Null));
+                situations.push(Json::s(sit));
+                for m in d.item.members.iter_mut() {
+                    let (raw, exp, sit) = make(&mut r);
+                    situations.push(Json::s(sit));
+                    match m {
+                        doc::MemberDoc::Method(x) => {
+                            x.doc = raw;
+                            expected.push(exp.map(Json::s).unwrap_or(Json::Null));
+                            for a in x.args.iter_mut() {
+                                let (raw, exp, sit) = make(&mut r);
+                                situations.push(Json::s(sit));
+                                a.doc = raw;
+                                expected.push(exp.map(Json::s).unwrap_or(Json::Null));
+                            }
+                        }
+                        doc::MemberDoc::Const(x) => {
+                            x.doc = raw;
+                            expected.push(exp.map(Json::s).unwrap_or(Json::Null));
+                        }
+                        doc::MemberDoc::Field(x) => {
+                            x.doc = raw;
+                            expected.push(exp.map(Json::s).unwrap_or(Json::Null));
+                        }
+                        doc::MemberDoc::EnumEl(x) => {
+                            x.doc = raw;
+                            expected.push(exp.map(Json::s).unwrap_or(Json::Null));
+                        }
+                        doc::MemberDoc::Garbage(_) => {}
+                    }
+                }
+                let rd = doc::render(&d);
+                let style = if crlf { LayoutStyle::WildNoComments } else if r.chance(1, 2) { LayoutStyle::Plain } else { LayoutStyle::WildNoComments };
+                let mut text = doc::layout(&rd.toks, style, &mut r).text;
+                if crlf {
+                    // a CRLF file: normalise every line ending
+                    text = text.replace("\r\n", "\n").replace('\r', "\n").replace('\n', "\r\n");
+                }
+                let extra = vec![("docs", Json::obj(vec![("expected", Json::Arr(expected)), ("situations", Json::Arr(situations)), ("crlf", Json::Bool(crlf))]))];
+                em.case(sd, parse_case(&vec![("f".to_owned(), text)], extra));
+            }
+        }
         // malformed inputs: token mutations of well-formed documents, token soups, character soups,
         // unterminated strings / comments, multi-byte injection
         "mutate" => {
